@@ -1,4 +1,5 @@
 import ScVerif.C09.MachineLemmas
+import ScVerif.C09.SendTimeout
 /-!
 # C09 — property theorems: lossy delivery preserves the folded view; slow readers never block writers
 
@@ -166,6 +167,26 @@ theorem C09_drop_latest {α : Type} (ms : List (Move α)) :
     rw [drun_append, drun_cons, drun_nil]
     simp [dstep, drecv]
 
+/-- Send deadline of `Value.set` (model `ScVerif/C09/SendTimeout.lean`: `Bus.Send` over any list of
+listeners, each `select` taking the earliest ready case): the send never hangs — it is over by the
+deadline; if some listener's receiver never takes the event (backpressure, subscriber not receiving)
+and is never cancelled, `Send` gives up exactly at the deadline and `set` returns an error; if every
+receiver is ready at once (lossy listeners — `C09_nonblocking` — or subscribers that keep receiving)
+the write completes at once without error. -/
+theorem C09_send_timeout (dl : Nat) (ls : List Listener) (hdl : 0 < dl) :
+    (busSend dl 0 ls).time ≤ dl ∧
+    ((∃ l ∈ ls, l.readyAt = none ∧ l.cancelledAt = none) →
+        busSend dl 0 ls = .deadlineExceeded dl ∧ setReturnsError dl ls = true) ∧
+    ((∀ l ∈ ls, ∃ t, l.readyAt = some t ∧ t ≤ 0) →
+        busSend dl 0 ls = .ok 0 ∧ setReturnsError dl ls = false) := by
+  refine ⟨(busSend_time_le dl 0 ls (Nat.zero_le _)).1, ?_, ?_⟩
+  · intro h
+    have := busSend_never_ready dl 0 ls (Nat.zero_le _) h
+    exact ⟨this, by simp [setReturnsError, this]⟩
+  · intro h
+    have := busSend_all_ready dl 0 ls hdl h
+    exact ⟨this, by simp [setReturnsError, this]⟩
+
 /-! ### non-vacuity -/
 
 section examples
@@ -188,6 +209,11 @@ example : (run (Cfg.init : Cfg Nat Nat) [.recv cAdd, .recv cAdd2, .recv cUpd, .r
 /-- The cells "not sure how this happens": what the code does there (outside well-formed streams). -/
 example : mergeChanges cAdd cAdd = some cAdd := by decide
 example : (mergeChanges cUpd cAdd).map (·.kind) = some Kind.replace := by decide
+
+/-- the two hypotheses of `C09_send_timeout` are satisfiable: a never-receiving backpressured listener
+after a lossy one times out at 5000; two ready listeners complete at once -/
+example : busSend 5000 0 [⟨some 0, none⟩, ⟨none, none⟩] = .deadlineExceeded 5000 := by decide
+example : busSend 5000 0 [⟨some 0, none⟩, ⟨some 0, some 7⟩] = .ok 0 := by decide
 
 end examples
 
